@@ -391,4 +391,29 @@ Proof.
     + inversion H; subst. repeat split. exact Pc.
 Qed.
 
+(** "lit" ~ !class : keywords *)
+Lemma seq_lit_not_class a l y Q : is_class a y Q -> forall fuel inp i,
+  run g fuel false a (Seq (Lit l) (NotP y)) inp i = OutOfFuel \/
+  run g fuel false a (Seq (Lit l) (NotP y)) inp i =
+    match strip_prefix l inp with
+    | Some rest =>
+        match rest with
+        | d :: _ => if Q d then Fail else Ok (rest, i + slen l, [])
+        | [] => Ok (rest, i + slen l, [])
+        end
+    | None => Fail
+    end.
+Proof.
+  intros Hy [|f] inp i; [left; reflexivity|]. rewrite run_Seq_nosk.
+  destruct f as [|f]; [left; reflexivity|].
+  change (run g (S f) false a (Lit l) inp i) with
+    (match strip_prefix l inp with Some rest => Ok (rest, i + slen l, @nil (pair R)) | None => Fail end).
+  destruct (strip_prefix l inp) as [rest|]; [|right; reflexivity].
+  change (run g (S f) false a (NotP y) rest (i + slen l)) with
+    (match run g f false a y rest (i + slen l) with
+     | Ok _ => Fail | Fail => Ok (rest, i + slen l, @nil (pair R)) | OutOfFuel => OutOfFuel end).
+  destruct (Hy f rest (i + slen l)) as [E|E]; rewrite E; [left; reflexivity|right].
+  destruct rest as [|d r]; cbn [class_result]; [reflexivity|]. destruct (Q d); reflexivity.
+Qed.
+
 End Classes.
